@@ -30,9 +30,10 @@ E_TIGHTPNG = 0xFFFFFEFC
 E_XCURSOR, E_RICH, E_PTRPOS, E_LASTRECT, E_NEWFB, E_EXTDS = 0xFFFFFF10, 0xFFFFFF11, 0xFFFFFF18, 0xFFFFFF20, 0xFFFFFF21, 0xFFFFFECC
 E_XVP, E_EXTCLIP = 0xFFFFFECB, 0xC0A1E5CE
 E_LED, E_SUPMSG, E_SUPENC, E_IDENT = 0xFFFE0000, 0xFFFE0001, 0xFFFE0002, 0xFFFE0003
+E_APP = 0x43303400      # pseudo-encoding of the harness application's protocol extension
 ENCODERS = [E_RAW, E_RRE, E_CORRE, E_HEX, E_ZLIB, E_TIGHT, E_ULTRA, E_ZRLE, E_ZYWRLE, E_TIGHTPNG]
 PSEUDO = [E_COPY, E_XCURSOR, E_RICH, E_PTRPOS, E_LASTRECT, E_NEWFB, E_EXTDS, E_XVP, E_EXTCLIP, E_LED,
-          E_SUPMSG, E_SUPENC, E_IDENT, 0xFFFFFF05, 0xFFFFFFE3, 0xFFFFFE32, 0xFFFFFD02, 0x12345678]
+          E_SUPMSG, E_SUPENC, E_IDENT, E_APP, E_APP, 0xFFFFFF05, 0xFFFFFFE3, 0xFFFFFE32, 0xFFFFFD02, 0x12345678]
 
 def m_spf(bpp=32, depth=24, be=0, tc=1, rmax=255, gmax=255, bmax=255, rs=16, gs=8, bs=0):
     return u8(0) + b"\0\0\0" + u8(bpp) + u8(depth) + u8(be) + u8(tc) + u16(rmax) + u16(gmax) + u16(bmax) + \
@@ -117,7 +118,7 @@ def rand_cfg(rng, **over):
            "ft": rng.choice([0, 1]), "tight": rng.choice([0, 0, 1]), "xvp": rng.choice([0, 1]),
            "utf8": rng.choice([0, 1]), "sdh": rng.choice([0, 1, 2]),
            "wait": rng.choice([20000, 20000, 5000, 10000, 7000, 100, 15000]),
-           "wenc": rng.choice([0, 5, 5, 2, 6, 16, 7]), "view": 0}
+           "wenc": rng.choice([0, 5, 5, 2, 6, 16, 7]), "view": rng.choice([0] * 9 + [1])}
     cfg.update(over)
     return cfg
 
@@ -520,6 +521,61 @@ def sc_unknown(rng):
     return s
 
 
+def sc_fields(rng):
+    """boundary sweep: ALL field mutations of one message kind, each on its own connection, each
+    followed by a key event (shows whether the stream is still in sync)"""
+    kind = rng.choice(["cut", "cutext", "chat", "ft", "sds", "setenc", "scale", "fbur", "spf", "xvp", "tight"])
+    over = {}
+    if kind == "cutext":
+        over["utf8"] = 1
+    if kind == "ft":
+        over["ft"] = rng.choice([1, 1, 0])
+    if kind == "tight":
+        over["tight"] = 1
+        over["pw"] = 0
+    cfg = rand_cfg(rng, **over)
+    s = Script(rng, cfg)
+    base = {"cut": m_cut(5, b"hello"), "cutext": m_cut(5, b"hello"), "chat": m_chat(5, b"hello"),
+            "ft": m_ft(3, 0, 0, 5, b"a.txt"), "sds": m_sds(1, 1, 1, screens(1, rng)), "setenc": m_setenc([0]),
+            "scale": m_scale(2, rng.random() < 0.3), "fbur": m_fbur(0, 0, 0, 1, 1), "spf": m_spf(), "xvp": m_xvp(1, 1),
+            "tight": rng.choice([t_list(0, b"/d"), t_dl(b"/x"), t_ul(b"/x"), t_mkdir(b"/x"), t_uldata(0, 1, 1, b"x"),
+                                 t_dlcancel(b"r"), t_ulfail(b"r")])}[kind]
+    muts = mutate_fields(rng, kind, base, cfg)
+    if kind == "tight":      # every message of the extension, every length field value
+        muts = []
+        for b in [t_list(0, b"/d"), t_dl(b"/x"), t_ul(b"/x"), t_mkdir(b"/x"), t_uldata(0, 1, 1, b"x"),
+                  t_dlcancel(b"r"), t_ulfail(b"r")]:
+            muts += mutate_fields(rng, kind, b, cfg)
+    if kind == "setenc":     # a count larger than the list, the application's pseudo-encoding last
+        for n in [3, 4, 7, 300]:
+            muts.append(("setenc-short", m_setenc([rng.choice(ENCODERS), E_APP], n)))
+            muts.append(("setenc-short", m_setenc([E_APP, E_APP, E_XVP][:rng.randint(1, 3)], n)))
+    if kind in ("cut", "cutext"):
+        for L in [(1 << 20) - 1, 1 << 20]:
+            if rng.random() < 0.15:
+                muts.append(("cut-full", m_cut(L, b"a" * L)))
+        if kind == "cutext":   # the same lengths in the extended (negative) encoding
+            for L in [3, 4, 8, (1 << 20) - 1, 1 << 20, (1 << 20) + 1, (1 << 31) - 1, 1 << 31]:
+                have = min(L, rng.choice([0, 4, 8, 12]))
+                fl = rng.choice([1 << 24 | 1, 1 << 25, 1 << 26, 1 << 27, 0, 1 << 28])
+                muts.append(("cutext-len", m_cut((-L) & 0xFFFFFFFF, (u32(fl) + b"\0" * 8)[:have])))
+    if kind == "chat":
+        muts.append(("chat-full", m_chat(4095, b"c" * 4095)))
+        muts.append(("chat-full", m_chat(4096, b"c" * 4096)))
+    for nm, m in muts:
+        i = s.handshake(rng.choice([8, 8, 3]), via_tight=(kind == "tight"))
+        if kind == "cutext":
+            s.send(i, m_setenc([E_RAW, E_EXTCLIP]))
+        s.tag(nm)
+        tail = b"" if nm.endswith("-short") else m_key(1, 0x41)
+        s.send(i, m + tail, [rng.randrange(1, len(m + tail))] if rng.random() < 0.3 and len(m + tail) > 1 else None)
+        if rng.random() < 0.1:
+            s.tick()
+    s.tick()
+    s.lines.append("end")
+    return s
+
+
 def sc_copyrects(rng):
     """application schedules a many-rectangle copy region while a CopyRect client is connected (finding h)"""
     cfg = rand_cfg(rng, w=128, h=96, wenc=0)
@@ -535,8 +591,8 @@ def sc_copyrects(rng):
     return s
 
 
-SCENARIOS = [(sc_mix, 30), (sc_trunc, 12), (sc_preauth, 12), (sc_pixfmt, 12), (sc_scale, 8), (sc_block, 10),
-             (sc_ft, 10), (sc_clip, 8), (sc_unknown, 4)]
+SCENARIOS = [(sc_mix, 30), (sc_fields, 30), (sc_trunc, 12), (sc_preauth, 12), (sc_pixfmt, 12), (sc_scale, 8), (sc_block, 10),
+             (sc_ft, 10), (sc_clip, 8), (sc_unknown, 4), (sc_copyrects, 3)]
 
 
 def gen_scripts(rng, n):
@@ -576,7 +632,9 @@ def oracle(script, cfg, impl, solo):
         return "observation count %d != ops %d (harness stopped early)" % (len(obs), len(ops))
     wait = cfg["wait"] or 20000
     kw = ceil_div(wait, 5000)
-    abound = (1 << 31) + 65536 if cfg["ft"] else (1 << 20) + 65536
+    # the proven per-message bounds (Props/C04.lean msgMax_value): 1 MiB (every screen of the
+    # generator is smaller than that), INT_MAX + 18 when file transfer is permitted
+    abound = (1 << 31) - 1 + 18 if cfg["ft"] else (1 << 20)
     ri = 0
     for op, ob in zip(ops, obs):
         if not ob.startswith("r "):
@@ -655,6 +713,8 @@ def compare(obs, model):
         ta, tb = a.split(), b.split()
         if tb[:1] == ["r"] and len(tb) >= 3 and tb[2] == "?" and ta[:2] == tb[:2]:
             continue
+        if tb == ["end", "?"] and ta[:1] == ["end"]:
+            continue
         if len(ta) == len(tb) and ta[:-1] == tb[:-1] and ta[-1].startswith("a=") and tb[-1].startswith("a="):
             if ta[-1][2:] in tb[-1][2:].split("|"):
                 continue
@@ -687,7 +747,7 @@ def run(ctx):
         for f in sorted(os.listdir(cdir)) if os.path.isdir(cdir) else []:
             if f.endswith(".ops"):
                 scripts.append(("corpus:" + f, open(os.path.join(cdir, f)).read(), {}))
-        n = 150 if ctx.tier == "quick" else 1500
+        n = 500 if ctx.tier == "quick" else 6000
         for name, s in gen_scripts(ctx.rng, n):
             scripts.append((name, s.text(), s.tags))
     results = common.pmap(lambda sc: run_one(ctx, h, d, sc[1], cfg_of(sc[1])), scripts)
